@@ -5,7 +5,9 @@
 
    In the model every front end is literally a list of [op]s fed to [run_calls] (single calls)
    or [run_extend] (extend_iter / extend_stream / from_iter), followed by [b_finish]; the
-   theorems below say these coincide.  Determinism itself is definitional here — [build_ops] is
+   theorems below say these coincide (streaming a union of other FSTs into extend_stream is
+   [run_extend] over the (key, value) list that union stream yields — what that list is belongs
+   to C05).  Determinism itself is definitional here — [build_ops] is
    a Gallina function, so equal arguments give equal bytes; that the Rust code computes this
    function on every run, in every process and thread (no dependence on addresses, hash seeds,
    time, or scheduling) is NOT a theorem of this file: it is covered by the correspondence run
